@@ -3,6 +3,7 @@ package c12
 
 import (
 	"bytes"
+	"strings"
 
 	"github.com/hashicorp/hcl/v2"
 	"github.com/hashicorp/hcl/v2/hclsyntax"
@@ -271,8 +272,11 @@ func H_Edits() {
 		case 5:
 			appendsTo()
 			var labels []string
-			if vf.Concretize(vf.Choice(2)) == 1 {
+			switch vf.Concretize(vf.Choice(3)) {
+			case 1:
 				labels = []string{label()}
+			case 2:
+				labels = []string{""} // an empty label is not the same as no label
 			}
 			wb.AppendNewBlock("nb", labels)
 			mb.blocks = append(mb.blocks, &mBlock{"nb", labels, newMBody()})
@@ -313,5 +317,54 @@ func H_Edits() {
 			vf.Assert(bytes.Contains(out, []byte("# lead\n")) && bytes.Contains(out, []byte("# trailing\n")), "untouched-attribute-keeps-comments")
 		}
 	}
+	probeLookup(f.Body(), model)
 	vf.Reach("done")
+}
+
+// probeLookup: FirstMatchingBlock with queries that are NEAR the header of an existing
+// block (a prefix of its labels, one more empty label, its labels joined into one,
+// no labels, one empty label, one symbolic byte) returns the first block with
+// exactly that header, or nil.
+func probeLookup(wb *hclwrite.Body, m *mBody) {
+	if len(m.blocks) == 0 || vf.Param("probe", 1) == 0 {
+		return
+	}
+	b0 := m.blocks[vf.Concretize(vf.Choice(len(m.blocks)))]
+	typ := b0.typ
+	var q []string
+	switch vf.Concretize(vf.Choice(6)) {
+	case 0:
+		if len(b0.labels) > 0 {
+			q = append(q, b0.labels[:len(b0.labels)-1]...)
+		}
+	case 1:
+		q = append(append(q, b0.labels...), "")
+	case 2:
+		if len(b0.labels) > 0 {
+			q = []string{strings.Join(b0.labels, ".")}
+		}
+	case 3:
+	case 4:
+		q = []string{""}
+	case 5:
+		q = []string{label()}
+	}
+	first := -1
+	for k, b := range m.blocks {
+		same := b.typ == typ && len(b.labels) == len(q)
+		for j := 0; same && j < len(q); j++ {
+			same = b.labels[j] == q[j]
+		}
+		if same {
+			first = k
+			break
+		}
+	}
+	fm := wb.FirstMatchingBlock(typ, q)
+	wblocks := wb.Blocks()
+	if first < 0 {
+		vf.Assert(fm == nil, "FirstMatchingBlock-finds-nothing-for-an-absent-header")
+	} else {
+		vf.Assert(first < len(wblocks) && fm == wblocks[first], "FirstMatchingBlock-near-miss-query-agrees-with-model")
+	}
 }
